@@ -71,6 +71,9 @@ func Alphabet(p int) []*Def {
 		{Disc: 1, Dep: str(""), Rec: &Def{Kind: Struct, Name: n("UeA"), Fields: []Field{{Name: "a", Type: S("int32"), Dep: str("")}}}},
 		{Disc: 2, Rec: &Def{Kind: Message, Name: n("UeB"), Fields: []Field{{Name: "b", Index: 1, Type: S("string"), Dep: str("")}}}}}})
 	add("enum-empty-deprecation", &Def{Kind: Enum, Name: n("Ee"), Members: []Member{{Name: "A", Expr: "1", U: 1, Dep: str("")}, {Name: "B", Expr: "2", U: 2}}})
+	add("flags-signed-negative-shifts", &Def{Kind: Enum, Name: n("Fneg"), Flags: true, Base: "int32", Members: []Member{
+		{Name: "All", Expr: "-1", S: -1}, {Name: "High", Expr: "All << 16", S: -65536}, {Name: "Lit", Expr: "-2 << 8", S: -512},
+		{Name: "Down", Expr: "-1024 >> 8", S: -4}, {Name: "Top", Expr: "1 << 30", S: 1 << 30}}})
 	add("const-uint64-hex", &Def{Kind: Const, Name: n("cu"), CType: "uint64", CText: "0xFFFFFFFFFFFFFFFF", CValue: "0xFFFFFFFFFFFFFFFF"})
 	add("const-int-neg", &Def{Kind: Const, Name: n("cn"), CType: "int64", CText: "-9223372036854775808", CValue: "-9223372036854775808"})
 	add("const-float", &Def{Kind: Const, Name: n("cf"), CType: "float64", CText: "1.5e3", CValue: "1.5e3"})
